@@ -263,7 +263,7 @@ def check(run):
                             judge(run, "%s/%d torn %s #%d (first %d of %d bytes)" % (mode, u, name, k, len(half), size), db, dist, pre, post, want_model=False)
         # ONE handle across the crash: it read before the writer started, the writer dies after spilling pages, it reads again
         npw = counts.get("pwrite64", 0)
-        for k in sorted(set([npw // 3, npw // 2, (2 * npw) // 3, npw - 2])):
+        for k in sorted(set([npw // 3, npw // 2, (2 * npw) // 3, npw - 2, npw - 1, npw])):
             if k < 1:
                 continue
             fresh()
@@ -272,10 +272,26 @@ def check(run):
             before = sess.cmd("selectrowid t 1 a,b")      # the header and a few pages are cached; most of the table is not
             run_writer(py, wd, db, mode, inject=("pwrite64", k), extra=extra)
             after = sess.cmd("select t 0 a,b")
+            srows, _ = sqlite_view(db)
+            # the history goes on: SQLite recovers the file in place (rolls the journal back), commits ONE more transaction, and the
+            # same handle - which has seen the crashed state's header, refused or not - reads: SQLite's content, nothing older
+            later, lrows = None, None
+            try:
+                c2 = sqlite3.connect(db, isolation_level=None)
+                c2.execute("SELECT count(*) FROM t").fetchone()
+                c2.execute("UPDATE t SET b = 'after-recovery' WHERE rowid IN (2, 3)")
+                lrows = c2.execute("SELECT a, b FROM t ORDER BY rowid").fetchall()
+                c2.close()
+                later = sess.cmd("select t 0 a,b")
+            except sqlite3.DatabaseError:
+                pass
             sess.close()
             run.count()
             dist["long_lived"] = dist.get("long_lived", 0) + 1
-            srows, _ = sqlite_view(db)
+            if later is not None and (hl.same_rows(later, lrows) or not any(l == "end ok" for l in later)):
+                run.violation("%s/%d: a handle that met the state a writer left when it died at pwrite64 #%d reads, after SQLite's recovery and one more commit, %s"
+                              % (mode, u, k, hl.same_rows(later, lrows) or "an error: %s" % later[-2:]), {"kind": "stale-after-recovery", "what": "long-lived handle: read; writer killed; read; SQLite recovers and commits once; read", "kill": k, "impl": later[:2] + later[-2:]})
+                continue
             rows = [l for l in after if l.startswith("row ")]
             failed = any(l.startswith("end err") for l in after)
             if srows is not None and (rows or not failed) and (hl.same_rows(after, srows) or failed):
